@@ -59,6 +59,29 @@ class TupleV(tuple):
     pass
 
 
+class SList:
+    """Python list of arrays / scalars whose length may be symbolic (`ci.append(...)` inside a loop).  Only the slots the code
+    provably addresses are tracked: slots = [(index term, value)], newest last.  An index is resolved against a slot when
+    z3.simplify(index - key) is the numeral 0; a non-zero numeral means "another slot"; anything else is out of the subset
+    (so a read never silently picks the wrong element).  The value is immutable (updates build a new SList bound to the same
+    name); binding a list to a second name is refused, so there is no aliasing of the list object itself."""
+
+    def __init__(self, length, slots):
+        self.length, self.slots = length, list(slots)
+
+    def find(self, idx):
+        idx = to_z3(idx, INT)
+        for pos in range(len(self.slots) - 1, -1, -1):
+            key, val = self.slots[pos]
+            d = z3.simplify(idx - to_z3(key, INT))
+            if z3.is_int_value(d):
+                if d.as_long() == 0:
+                    return pos
+                continue
+            raise OutOfSubset('list index %s cannot be resolved against the tracked slot %s' % (idx, key))
+        raise OutOfSubset('list index %s is not a tracked slot' % idx)
+
+
 class Row:
     """lazy 1-D value: length n and element function (z3 Int -> value)."""
 
@@ -397,7 +420,7 @@ class Contract:
     """Sidecar contract of one function (see /verif/contracts/*.py)."""
 
     def __init__(self, module, name, params, requires=(), ensures=(), loops=None, abstract=None, ghost_after=None,
-                 ghost_before=None, notes='', ensures_raises=None, setup=None, assume_after=None, stop_at=None, key=None, nonlinear=None, fragment=None, inputs=None, dot_support=False):
+                 ghost_before=None, notes='', ensures_raises=None, setup=None, assume_after=None, stop_at=None, key=None, nonlinear=None, fragment=None, inputs=None, dot_support=False, use_fragments=None):
         self.module, self.name, self.params = module, name, params
         self.requires, self.ensures = list(requires), list(ensures)
         self.loops = dict(loops or {})
@@ -412,6 +435,7 @@ class Contract:
         self.key = key or name
         self.nonlinear = nonlinear
         self.fragment = fragment
+        self.use_fragments = dict(use_fragments or {})
         self.dot_support = dot_support
         self.inputs = inputs       # [(param, z3 const name, kind, size const)] for replaying solver counter-models on the real function
 
@@ -524,7 +548,10 @@ class Engine:
     def ev_Tuple(self, node, st):
         return TupleV(self.ev(e, st) for e in node.elts)
 
-    ev_List = ev_Tuple
+    def ev_List(self, node, st):
+        if not node.elts:
+            return SList(0, [])
+        return self.ev_Tuple(node, st)
 
     def ev_UnaryOp(self, node, st):
         v = self.ev(node.operand, st)
@@ -692,9 +719,26 @@ class Engine:
 
     def ev_Subscript(self, node, st):
         base = self.ev(node.value, st)
+        if isinstance(base, SList):
+            if isinstance(node.slice, ast.Slice):
+                raise OutOfSubset('slice of a list')
+            idx = to_z3(self.ev(node.slice, st), INT)
+            self.oblige(st, 'bounds/list:%s' % ast.unparse(node)[:24], z3.And(idx >= 0, idx < to_z3(base.length, INT)), kind='safety')
+            return base.slots[base.find(idx)][1]
         return self.np.getitem(self, st, base, node.slice)
 
     def ev_Call(self, node, st):
+        if isinstance(node.func, ast.Attribute) and isinstance(node.func.value, ast.Name) and isinstance(st.env.get(node.func.value.id), SList):
+            lst = st.env[node.func.value.id]
+            if node.func.attr != 'append' or len(node.args) != 1 or node.keywords:
+                raise OutOfSubset('list method %s' % ast.unparse(node)[:40])
+            v = self.ev(node.args[0], st)
+            if isinstance(v, (Row, Mat)):
+                v = self.np.materialise(self, st, v)
+            if isinstance(v, SList) or not (isinstance(v, Ref) or is_z3(v) or isinstance(v, (int, float, fractions.Fraction))):
+                raise OutOfSubset('list element %r' % (v,))
+            st.env[node.func.value.id] = SList(z3.simplify(to_z3(lst.length, INT) + 1), lst.slots + [(to_z3(lst.length, INT), v)])
+            return None
         f = self.ev(node.func, st)
         if isinstance(f, Opaque) and f.kind == 'builtin' and f.name in SPEC_BUILTINS:
             return SPEC_BUILTINS[f.name](self, st, node)
@@ -713,6 +757,8 @@ class Engine:
 
     def builtin(self, st, name, args, kw, node):
         if name == 'len':
+            if isinstance(args[0], SList):
+                return args[0].length
             return self.np.shape(self, st, args[0])[0]
         if name == 'range':
             return Opaque('range', args=args)
@@ -747,18 +793,154 @@ class Engine:
         """returns list of (state, outcome)."""
         live = [st]
         done = []
-        for s in stmts:
+        i = 0
+        while i < len(stmts):
+            s = stmts[i]
+            uf = self._fragment_use_at(stmts, i)
             nxt = []
             for cur in live:
-                for s2, out in self.stmt(s, cur):
+                res = self.use_fragment(stmts[i:uf[1] + 1], cur, uf[0]) if uf else self.stmt(s, cur)
+                for s2, out in res:
                     if out == 'fall':
                         nxt.append(s2)
                     else:
                         done.append((s2, out))
             live = nxt
+            i = uf[1] + 1 if uf else i + 1
             if not live:
                 break
         return [(s, 'fall') for s in live] + done
+
+    # ---- modular use of a proved fragment contract --------------------------------------------------------------------
+    def _skey(self, node):
+        return loop_key(node) if isinstance(node, (ast.For, ast.While)) else ('if ' + ast.unparse(node.test) if isinstance(node, ast.If) else ast.unparse(node))
+
+    def _fragment_use_at(self, stmts, i):
+        uses = getattr(self.c, 'use_fragments', None)
+        if not uses:
+            return None
+        for key, spec in uses.items():
+            k0, k1 = spec['contract'].fragment
+            if self._skey(stmts[i]) == k0 or self.stmt_ord.get(id(stmts[i])) == k0:
+                for j in range(i, len(stmts)):
+                    if self._skey(stmts[j]) == k1 or self.stmt_ord.get(id(stmts[j])) == k1:
+                        return spec, j, key
+                raise ContractError('fragment end %r not found after %r' % (k1, k0))
+        return None
+
+    def use_fragment(self, stmts, st, spec):
+        """The statements stmts are exactly the fragment of THIS function that the contract spec['contract'] verifies from an
+        arbitrary entry state (its setup + requires).  Here: (1) the entry state is checked against that setup (same names, ranks,
+        element sorts, shapes) and each `requires` clause becomes an obligation of the caller; (2) the syntactic write set of the
+        statements is havocked; (3) the fragment's `ensures` are assumed.  The fragment's own obligations are discharged by the
+        same check run (its contract is listed next to this one); nothing is assumed about the fragment that it does not prove."""
+        F = spec['contract']
+        key = F.key
+        if (F.module, F.name) != (self.c.module, self.c.name):
+            raise ContractError('fragment contract %s is about another function' % key)
+        self.used_fragments = getattr(self, 'used_fragments', set()) | {key}
+        # (1) entry typing
+        fs = State()
+        F.setup(self, fs)
+        consts = {}
+        for nm, v in fs.env.items():
+            if is_z3(v) and z3.is_const(v):
+                consts[v.get_id()] = nm
+        problems = []
+        for nm, v in fs.env.items():
+            cv = st.env.get(nm)
+            if isinstance(v, Ref):
+                fo = fs.heap[v.oid]
+                if not isinstance(cv, Ref):
+                    problems.append('%s is not an array at the call site' % nm)
+                    continue
+                co = st.heap[cv.oid]
+                if co.ndim != fo.ndim or co.esort != fo.esort:
+                    problems.append('%s: rank/sort differ' % nm)
+                for fd_, cd in zip(fo.shape, co.shape):
+                    fd_ = to_z3(fd_, INT)
+                    if fd_.get_id() in consts:
+                        want = to_z3(st.env.get(consts[fd_.get_id()]), INT)
+                    elif z3.is_int_value(fd_):
+                        want = fd_
+                    else:
+                        problems.append('%s: shape term %s of the fragment setup is not a declared scalar' % (nm, fd_))
+                        continue
+                    if not z3.simplify(to_z3(cd, INT) - want).eq(z3.IntVal(0)):
+                        problems.append('%s: shape %s differs from %s' % (nm, cd, want))
+            elif isinstance(v, Opaque):
+                if not (isinstance(cv, Opaque) and cv.kind == v.kind):
+                    problems.append('%s is not %s at the call site' % (nm, v.kind))
+            elif is_z3(v):
+                if cv is None or isinstance(cv, (Ref, SList, Opaque, TupleV)):
+                    problems.append('%s is not a scalar at the call site' % nm)
+                elif v.sort() == INT and to_z3(cv).sort() != INT:
+                    problems.append('%s: Int expected' % nm)
+            else:
+                problems.append('setup value of %s not understood' % nm)
+        self.obls.append(Obligation('%s/use[%s]/entry-state-matches-fragment-setup' % (self.c.key, key), [], z3.BoolVal(not problems), kind='frame'))
+        if problems:
+            raise ContractError('use of fragment %s: %s' % (key, '; '.join(problems)))
+        # names bound for the evaluation of the fragment's clauses take precedence over program variables of the same name
+        # (the fragment's ghost n0 is the level size, the function has its own variable n0)
+        binds = {g: self.ev_str(src, st) for g, src in spec.get('bind', {}).items()}
+        saved = dict(st.ghost)
+        shadow = {g: st.env.pop(g) for g in binds if g in st.env}
+        st.ghost.update(binds)
+        try:
+            for name, src in F.requires:
+                self.oblige(st, 'use[%s]/requires/%s' % (key, name), truth(self.ev_str(src, st)))
+        finally:
+            st.ghost = saved
+            st.env.update(shadow)
+        # (2) havoc of the write set; arrays mutated in place must be allocated inside the fragment
+        names, stores = self.write_set(stmts)
+        fresh_inside = self.fresh_alloc_names(stmts)
+        bad = sorted(n_ for n_ in stores if n_ not in fresh_inside)
+        self.obls.append(Obligation('%s/use[%s]/frame' % (self.c.key, key), [], z3.BoolVal(not bad), kind='frame'))
+        if bad:
+            raise ContractError('fragment %s stores into %s, which is not allocated inside it' % (key, bad))
+        self.abstracted.append({'function': self.c.name, 'block': 'fragment ' + key, 'havocked': sorted(names | stores),
+                                'replaced_by': 'the ensures of contract %s (proved separately from the same source lines)' % key})
+        s2 = st.fork()
+        for nm in sorted(names | stores):
+            s2.env.pop(nm, None)
+        for nm, (kind, *dims) in spec.get('declare', {}).items():
+            if nm not in names | stores:
+                raise ContractError('declared result %s is not written by the fragment' % nm)
+            shp = tuple(self.ev_str(d, s2) for d in dims)
+            if kind == 'int1':
+                s2.env[nm] = alloc(s2, 1, fresh('fr_' + nm, A1I), shp, INT)
+            elif kind == 'real1':
+                s2.env[nm] = alloc(s2, 1, fresh('fr_' + nm, A1R), shp, REAL)
+            elif kind == 'mat':
+                s2.env[nm] = alloc(s2, 2, fresh('fr_' + nm, A2R), shp, REAL)
+            elif kind == 'int':
+                s2.env[nm] = fresh('fr_' + nm, INT)
+            elif kind == 'bool':
+                s2.env[nm] = fresh('fr_' + nm, BOOL)
+            else:
+                raise ContractError('declare kind %s' % kind)
+        outs = []
+        if any(isinstance(x, ast.Raise) for s_ in stmts for x in ast.walk(s_)):
+            s3 = s2.fork()
+            outs.append((s3, ('raise', ExcV('BCTParamError', ()))))
+        # (3) assume the ensures
+        post = {g: self.ev_str(src, s2) for g, src in spec.get('bind_post', {}).items()}
+        s2.ghost.update(binds)
+        s2.ghost.update(post)
+        shadow = {g: s2.env.pop(g) for g in list(binds) + list(post) if g in s2.env}
+        for name, src in F.ensures:
+            s2.pc.append(truth(self.ev_str(src, s2)))
+        s2.env.update(shadow)
+        for g in list(binds) + list(post):
+            if g in saved:
+                s2.ghost[g] = saved[g]
+            else:
+                s2.ghost.pop(g, None)
+        if spec.get('ghost_after'):
+            self.run_ghost(spec['ghost_after'], s2)
+        return [(s2, 'fall')] + outs
 
     def stmt(self, node, st):
         key = loop_key(node) if isinstance(node, (ast.For, ast.While)) else ('if ' + ast.unparse(node.test) if isinstance(node, ast.If) else ast.unparse(node))
@@ -876,6 +1058,8 @@ class Engine:
                 if isinstance(base, Ref):
                     raise OutOfSubset('a basic slice (numpy view) is bound to a name: %s' % ast.unparse(node)[:60])
         val = self.ev(node.value, st)
+        if isinstance(val, SList) and isinstance(node.value, (ast.Name, ast.Subscript, ast.Attribute)):
+            raise OutOfSubset('a list object is bound to a second name: %s' % ast.unparse(node)[:60])
         if isinstance(val, Fork):
             out = []
             for cond, v, exc in val.branches:
@@ -903,6 +1087,18 @@ class Engine:
                 self.assign(t, v, st)
         elif isinstance(target, ast.Subscript):
             base = self.ev(target.value, st)
+            if isinstance(base, SList):
+                if not isinstance(target.value, ast.Name) or isinstance(target.slice, ast.Slice):
+                    raise OutOfSubset('store into a nested list / list slice')
+                if isinstance(val, (Row, Mat)):
+                    val = self.np.materialise(self, st, val)
+                idx = to_z3(self.ev(target.slice, st), INT)
+                self.oblige(st, 'bounds/liststore:%s' % ast.unparse(target)[:24], z3.And(idx >= 0, idx < to_z3(base.length, INT)), kind='safety')
+                pos = base.find(idx)
+                slots = list(base.slots)
+                slots[pos] = (slots[pos][0], val)
+                st.env[target.value.id] = SList(base.length, slots)
+                return
             self.np.setitem(self, st, base, target.slice, val, target)
         else:
             raise OutOfSubset('assignment target')
@@ -1036,6 +1232,8 @@ class Engine:
 
     def write_set(self, stmts):
         names, stores = set(), set()
+        if not hasattr(self, 'list_store_idx'):
+            self.list_store_idx = {}
 
         class V(ast.NodeVisitor):
             def visit_Assign(s, n):
@@ -1062,11 +1260,15 @@ class Engine:
                     for e in t.elts:
                         s.tgt(e)
                 elif isinstance(t, ast.Subscript):
-                    b = t.value
+                    b, first = t.value, t
                     while isinstance(b, (ast.Subscript, ast.Attribute)):
+                        first = b
                         b = b.value
                     if isinstance(b, ast.Name):
                         stores.add(b.id)
+                        # for a list of arrays (`ci[h][mask] = v`): which element is written (used by havoc to keep the others)
+                        if isinstance(first, ast.Subscript) and first is not t:
+                            self.list_store_idx.setdefault(b.id, []).append(first.slice)
 
             def visit_Call(s, n):
                 fn = ast.unparse(n.func)
@@ -1074,27 +1276,55 @@ class Engine:
                     stores.add(n.args[0].id)
                 if isinstance(n.func, ast.Attribute) and n.func.attr in ('sort', 'fill', 'resize', 'put', 'itemset') and isinstance(n.func.value, ast.Name):
                     stores.add(n.func.value.id)
+                if isinstance(n.func, ast.Attribute) and n.func.attr in ('append', 'extend', 'insert', 'pop', 'remove', 'clear') and isinstance(n.func.value, ast.Name):
+                    names.add(n.func.value.id)
                 s.generic_visit(n)
         for s_ in stmts:
             V().visit(s_)
         return names, stores
 
-    def havoc(self, st, names, stores, ghosts=()):
+    def havoc(self, st, names, stores, ghosts=(), spec=None):
+        spec = spec or {}
         for nm in sorted(stores):
             v = st.env.get(nm)
             if isinstance(v, Ref):
                 o = st.heap[v.oid]
                 o.term = fresh('hv_' + nm, o.term.sort())
                 o.meta = {}
+            elif isinstance(v, SList) and nm not in names:
+                # an element array of the list is written in place: havoc the addressed element(s); if the index expression is
+                # itself modified in the loop (or is not a tracked slot), every tracked element is havocked
+                hit = set()
+                for sl in self.list_store_idx.get(nm, [None]):
+                    try:
+                        if sl is None or any(isinstance(x, ast.Name) and x.id in names for x in ast.walk(sl)):
+                            raise OutOfSubset('index modified')
+                        hit.add(v.find(self.ev(sl, st)))
+                    except OutOfSubset:
+                        hit = set(range(len(v.slots)))
+                        break
+                for pos in hit:
+                    e = v.slots[pos][1]
+                    if isinstance(e, Ref):
+                        o = st.heap[e.oid]
+                        o.term = fresh('hv_' + nm, o.term.sort())
+                        o.meta = {}
+        lists = spec.get('lists', {})
+        shapes = spec.get('shapes', {})
+        later = []
         for nm in sorted(names):
             v = st.env.get(nm)
             if v is None and nm not in st.env:
                 continue
             if isinstance(v, Ref):
                 # the name is re-bound in the loop body (e.g. `nPATH = np.dot(nPATH, G)`): at the head of an arbitrary iteration it
-                # denotes an arbitrary array of the same shape and element sort -- a NEW object (other names keep their objects)
-                o = st.heap[v.oid]
-                st.env[nm] = alloc(st, o.ndim, fresh('hv_' + nm, o.term.sort()), o.shape, o.esort)
+                # denotes an arbitrary array of the same shape and element sort -- a NEW object (other names keep their objects).
+                # If the shape itself changes between iterations (`W = W1` with W1 of the new size) the loop contract declares it
+                # (spec 'shapes': name -> tuple of expressions, evaluated after the scalars have been havocked)
+                later.append(nm)
+                continue
+            if isinstance(v, SList):
+                later.append(nm)
                 continue
             if is_z3(v):
                 st.env[nm] = fresh('hv_' + nm, v.sort())
@@ -1106,6 +1336,27 @@ class Engine:
                 st.env[nm] = fresh('hv_' + nm, REAL)
             elif isinstance(v, TupleV) or v is None or isinstance(v, (Opaque, str)):
                 st.env.pop(nm, None) if not isinstance(v, Opaque) else None
+        for nm in later:
+            v = st.env[nm]
+            if isinstance(v, Ref):
+                o = st.heap[v.oid]
+                shp = tuple(self.ev_str(e, st) for e in shapes[nm]) if nm in shapes else o.shape
+                if len(shp) != o.ndim:
+                    raise ContractError('shape declaration of %s has the wrong rank' % nm)
+                st.env[nm] = alloc(st, o.ndim, fresh('hv_' + nm, o.term.sort()), shp, o.esort)
+            else:
+                # list that grows in the loop: at the head of an arbitrary iteration its length is the declared expression (the
+                # clause len(name) == expr is an invariant obligation like any other) and only its LAST element is known to exist
+                if nm not in lists or not v.slots:
+                    raise ContractError('list %s is modified in a loop: the loop contract must declare its length (spec lists)' % nm)
+                ln = z3.simplify(to_z3(self.ev_str(lists[nm], st), INT))
+                last = v.slots[-1][1]
+                if isinstance(last, Ref):
+                    o = st.heap[last.oid]
+                    e = alloc(st, o.ndim, fresh('hv_' + nm, o.term.sort()), o.shape, o.esort)
+                else:
+                    e = fresh('hv_' + nm, BOOL if to_z3(last).sort() == BOOL else REAL)     # a list of numbers: reals (ints embed)
+                st.env[nm] = SList(ln, [(z3.simplify(ln - 1), e)])
         for g in ghosts:
             v = st.ghost.get(g)
             if is_z3(v):
@@ -1130,11 +1381,11 @@ class Engine:
     def loop(self, node, st):
         key = loop_key(node)
         cnt = self.loop_counts.get(key, 0)
-        spec = self.c.loops.get(key) or self.c.loops.get('%s#%d' % (key, cnt))
+        spec = self.c.loops.get(key) or self.c.loops.get(self.stmt_ord.get(id(node), ''))     # key, or key#k with k the ordinal in source order
         self.loop_counts[key] = cnt + 1
         if spec is None:
             raise ContractError('no invariant for loop `%s` in %s' % (key, self.c.name))
-        self.used_loops.add(key)
+        self.used_loops.add(key if key in self.c.loops else self.stmt_ord.get(id(node), key))
         lname = spec.get('name', key)
         names, stores = self.write_set(node.body + ([node] if isinstance(node, ast.For) else []))
         ghosts = spec.get('ghosts', ())
@@ -1176,7 +1427,7 @@ class Engine:
         body_st = st.fork()
         if is_for:
             body_st.pc.append(count > 0)
-        self.havoc(body_st, names, stores, ghosts)
+        self.havoc(body_st, names, stores, ghosts, spec)
         itc = fresh('it', INT) if is_for else None
         for cname, g in self.inv_clauses(spec, body_st, {'_it': itc} if is_for else None):
             body_st.pc.append(g)
@@ -1275,6 +1526,10 @@ class Engine:
                     fn = ast.unparse(v.func)
                     if fn in FRESH_CALLS or fn.endswith('.copy'):
                         ok = True
+                if isinstance(v, (ast.BinOp, ast.UnaryOp)):
+                    ok = True         # numpy arithmetic always allocates its result
+                if isinstance(v, ast.Constant):
+                    ok = True         # a scalar: `it = 0; it += 1` re-binds the name, nothing is shared
                 if ok:
                     for t in n.targets:
                         if isinstance(t, ast.Name):
@@ -1343,8 +1598,9 @@ class Engine:
             else:
                 raise OutOfSubset('loop control outside loop')
         # every contract element must have been bound
-        missing = [k for k in self.c.loops if k.split('#')[0] not in self.used_loops]
+        missing = [k for k in self.c.loops if k not in self.used_loops and ('#' in k or k.split('#')[0] not in self.used_loops)]
         missing += [k for k in self.c.abstract if k not in self.used_abstract]
+        missing += ['use_fragment:' + k for k, sp in self.c.use_fragments.items() if sp['contract'].key not in getattr(self, 'used_fragments', set())]
         missing += [k for k in list(self.c.ghost_after) + list(self.c.assume_after) if ('after', k) not in self.used_ghost]
         missing += [k for k in self.c.ghost_before if ('before', k) not in self.used_ghost]
         if self.c.stop_at is not None and not getattr(self, 'stopped', False):
@@ -1701,6 +1957,48 @@ def _sb_lemma_relabel(eng, st, node):
     return z3.Implies(hyp, Qmod(W, c1, g, n) == Qmod(W, c2, g, n))
 
 
+def _sb_lemma_agg_compose(eng, st, node):
+    """LEMMA (Lean: agg_compose_smt = agg_comp + tot_agg + Q_agg_comp): aggregation composes.
+    lemma_agg_compose(W0, cur, Wl, p, new, gamma, N0, n): if Wl is the n x n aggregate of W0 under the labels cur (1..n) and
+    new[x] == p[cur[x]-1] for every original node x, then the aggregate of Wl under p is the aggregate of W0 under new (cell by
+    cell, for every pair of 0-based labels), both matrices have the same total, and Q(Wl, p) == Q(W0, new)."""
+    W0 = _term2(eng, st, eng.ev(node.args[0], st))
+    cur = _term1i(eng, st, eng.ev(node.args[1], st))
+    Wl = _term2(eng, st, eng.ev(node.args[2], st))
+    p_ = _term1i(eng, st, eng.ev(node.args[3], st))
+    new = _term1i(eng, st, eng.ev(node.args[4], st))
+    g = to_z3(eng.ev(node.args[5], st), REAL)
+    N0 = to_z3(eng.ev(node.args[6], st), INT)
+    n = to_z3(eng.ev(node.args[7], st), INT)
+    a, b, x = z3.Ints('a!c b!c x!c')
+    hyp = z3.And(z3.ForAll([a, b], z3.Implies(z3.And(a >= 0, a < n, b >= 0, b < n), z3.Select(z3.Select(Wl, a), b) == agg(W0, cur, a, b, N0))),
+                 z3.ForAll([x], z3.Implies(z3.And(x >= 0, x < N0), z3.And(z3.Select(cur, x) >= 1, z3.Select(cur, x) <= n,
+                                                                          z3.Select(new, x) == z3.Select(p_, z3.Select(cur, x) - 1)))))
+    concl = z3.And(z3.ForAll([a, b], agg(Wl, p_, a, b, n) == agg(W0, new, a, b, N0), patterns=[agg(Wl, p_, a, b, n)]),
+                   tsum(Wl, n) == tsum(W0, N0), Qmod(Wl, p_, g, n) == Qmod(W0, new, g, N0))
+    return z3.Implies(hyp, concl)
+
+
+def _sb_lemma_agg_symm(eng, st, node):
+    """LEMMA (Lean: agg_symm): the aggregate of a symmetric matrix is symmetric.  lemma_agg_symm(W, c, n)."""
+    W = _term2(eng, st, eng.ev(node.args[0], st))
+    c = _term1i(eng, st, eng.ev(node.args[1], st))
+    n = to_z3(eng.ev(node.args[2], st), INT)
+    x, y, a, b = z3.Ints('x!g y!g a!g b!g')
+    hyp = z3.ForAll([x, y], z3.Implies(z3.And(x >= 0, x < n, y >= 0, y < n), z3.Select(z3.Select(W, x), y) == z3.Select(z3.Select(W, y), x)))
+    return z3.Implies(hyp, z3.ForAll([a, b], agg(W, c, a, b, n) == agg(W, c, b, a, n), patterns=[agg(W, c, a, b, n)]))
+
+
+def _sb_lemma_agg_identity(eng, st, node):
+    """LEMMA (Lean: agg_id): under singleton labels c[y] == y + 1 (y < n) the aggregate is the matrix itself.  lemma_agg_identity(W, c, n)."""
+    W = _term2(eng, st, eng.ev(node.args[0], st))
+    c = _term1i(eng, st, eng.ev(node.args[1], st))
+    n = to_z3(eng.ev(node.args[2], st), INT)
+    y, a, b = z3.Ints('y!g a!g b!g')
+    hyp = z3.ForAll([y], z3.Implies(z3.And(y >= 0, y < n), z3.Select(c, y) == y + 1))
+    return z3.Implies(hyp, z3.ForAll([a, b], z3.Implies(z3.And(a >= 0, a < n, b >= 0, b < n), agg(W, c, a, b, n) == z3.Select(z3.Select(W, a), b)), patterns=[agg(W, c, a, b, n)]))
+
+
 def _sb_lemma_relabel_g(eng, st, node):
     """LEMMA (Lean: Qraw_relabel): the un-normalised quality depends on the labels only through the equality pattern.
     lemma_relabel_g(M, c1, c2, gamma, sd, n)."""
@@ -1737,6 +2035,8 @@ def _sb_lemma_q_from_aggregate(eng, st, node):
 
 def _sb_result_is_empty(eng, st, node):
     r = st.ghost.get('_result')
+    if isinstance(r, SList):
+        return isinstance(r.length, int) and r.length == 0 and not r.slots
     return isinstance(r, (list, tuple)) and len(r) == 0
 
 
@@ -1863,6 +2163,6 @@ SPEC_BUILTINS = {
     'dot2': _sb_dot2, 'isperm': _sb_isperm, 'same_object': _sb_same_object, 'unchanged': _sb_unchanged,
     'snapshot': _sb_snapshot, 'argref': _sb_argref, 'lam1': _sb_lam1, 'KCf': _sb_KCf, 'KNf': _sb_KNf, 'result_is_empty': _sb_result_is_empty, 'hopsint': _sb_hopsint, 'lam2': _sb_lam2, 'unique_witness': _sb_unique_witness, 'member': _sb_member, 'dset': _sb_dset(dset), 'rset': _sb_dset(rset), 'wset': _sb_dset(wset), 'cntb': _sb_cntb,
     'modsum': _mk_mod(modsum, 3), 'modsumT': _mk_mod(modsumT, 3), 'degsum': _mk_mod(degsum, 2), 'degsumT': _mk_mod(degsumT, 2), 'agg': _mk_mod(agg, 3),
-    'Qmod': _sb_Qmod, 'walk': _sb_walk, 'isint': (lambda eng, st, node: z3.IsInt(to_z3(eng.ev(node.args[0], st), REAL))), 'sdist': _sb_sdist, 'lemma_walks': _sb_lemma_walks, 'Qrawg': _sb_Qrawg, 'umul': _sb_umul, 'lemma_umul_linear': _sb_lemma_umul_linear, 'QrawB': _mk_mod(QrawB, 1), 'tsum': _mk_specfn(tsum, 1), 'csum': _mk_specfn(csum, 2), 'lemma_modularity': _sb_lemma_modularity, 'lemma_knm_sums': _sb_lemma_knm_sums, 'lemma_relabel': _sb_lemma_relabel, 'lemma_relabel_g': _sb_lemma_relabel_g, 'lemma_q_from_aggregate': _sb_lemma_q_from_aggregate,
+    'Qmod': _sb_Qmod, 'walk': _sb_walk, 'isint': (lambda eng, st, node: z3.IsInt(to_z3(eng.ev(node.args[0], st), REAL))), 'sdist': _sb_sdist, 'lemma_walks': _sb_lemma_walks, 'Qrawg': _sb_Qrawg, 'umul': _sb_umul, 'lemma_umul_linear': _sb_lemma_umul_linear, 'QrawB': _mk_mod(QrawB, 1), 'tsum': _mk_specfn(tsum, 1), 'csum': _mk_specfn(csum, 2), 'lemma_modularity': _sb_lemma_modularity, 'lemma_knm_sums': _sb_lemma_knm_sums, 'lemma_relabel': _sb_lemma_relabel, 'lemma_relabel_g': _sb_lemma_relabel_g, 'lemma_agg_compose': _sb_lemma_agg_compose, 'lemma_agg_symm': _sb_lemma_agg_symm, 'lemma_agg_identity': _sb_lemma_agg_identity, 'lemma_q_from_aggregate': _sb_lemma_q_from_aggregate,
     'lemma_masked_degree': _sb_lemma_masked_degree, 'lemma_degree_monotone': _sb_lemma_degree_monotone, 'result': _sb_result, 'raised': _sb_raised, 'shape_is': _sb_shape_is,
 }
